@@ -82,10 +82,105 @@ Definition fuel_for (g : graph) : nat := S (length g).
 Definition detect (g : graph) (order : list nat) : outcome :=
   check_loop (fuel_for g) g order (St [] []).
 
+(* ---- one detector kept between runs, on a graph that is still being resolved ---- *)
+(* BuildState keeps ONE cycleDetector (state.progress.cycleDetector) and runs Check every time the
+   build goes idle, while targets are still being added and dependencies resolved.  A world is
+   everything such a run can depend on:
+     resolved : entry v = Dependencies() of target v (targets are numbered in the order of AddTarget)
+     declared : the pairs (target, declared dependency label) - DeclaredDependencies(); a declared
+                label may be resolved to a target, not yet resolved, or not (yet) a target at all
+     stopped  : the only field besides the graph pointer that type cycleDetector has.
+   partial and complete are locals of Check: nothing of them survives a run. *)
+Record world := W { resolved : graph; declared : list (nat * nat); stopped : bool }.
+
+Inductive event :=
+| EAddTarget                     (* graph.AddTarget(t): the new target is number |resolved| *)
+| EDeclare (a b : nat)           (* a.AddDependency(label b): declared, not resolved *)
+| EResolve (a b pos : nat)       (* a.resolveDependency(label b, target b): b is appended to the deps of the
+                                    declared label b; Dependencies() is sorted by label, pos is where b lands *)
+| EStop                          (* cycleDetector.Stop() *)
+| ECheck (order : list nat).     (* cycleDetector.Check() with AllTargets() = order *)
+
+Fixpoint insert_at (pos x : nat) (l : list nat) : list nat :=
+  match pos, l with
+  | O, _ => x :: l
+  | S _, [] => [x]
+  | S p, y :: r => y :: insert_at p x r
+  end.
+
+Fixpoint upd_row (a : nat) (f : list nat -> list nat) (g : graph) : graph :=
+  match g, a with
+  | [], _ => []
+  | row :: r, O => f row :: r
+  | row :: r, S a' => row :: upd_row a' f r
+  end.
+
+Definition same_decl (a b : nat) (p : nat * nat) : bool := Nat.eqb (fst p) a && Nat.eqb (snd p) b.
+
+(* dependencyInfo(label) == nil -> append a depInfo, else reuse it *)
+Definition add_decl (a b : nat) (d : list (nat * nat)) : list (nat * nat) :=
+  if existsb (same_decl a b) d then d else d ++ [(a, b)].
+
+(* len(target.DeclaredDependencies()) *)
+Definition decl_count (d : list (nat * nat)) (a : nat) : nat :=
+  length (filter (fun p => Nat.eqb (fst p) a) d).
+
+Definition apply_event (w : world) (e : event) : world :=
+  match e with
+  | EAddTarget => W (resolved w ++ [[]]) (declared w) (stopped w)
+  | EDeclare a b => W (resolved w) (add_decl a b (declared w)) (stopped w)
+  | EResolve a b pos => W (upd_row a (insert_at pos b) (resolved w)) (add_decl a b (declared w)) (stopped w)
+  | EStop => W (resolved w) (declared w) true
+  | ECheck _ => w                (* a run of Check leaves nothing behind *)
+  end.
+
+(* if c.stopped { return nil }; otherwise the pass over the currently resolved edges, and only them *)
+Definition check_world (chk : graph -> list nat -> outcome) (w : world) (order : list nat) : outcome :=
+  if stopped w then Clean else chk (resolved w) order.
+
+(* one entry per Check of the session: the world it ran in, its AllTargets() order, what it returned *)
+Record ran := Ran { r_world : world; r_order : list nat; r_out : outcome }.
+
+Fixpoint run_session (chk : graph -> list nat -> outcome) (w : world) (es : list event) : list ran :=
+  match es with
+  | [] => []
+  | ECheck order :: r => Ran w order (check_world chk w order) :: run_session chk w r
+  | e :: r => run_session chk (apply_event w e) r
+  end.
+
+(* NewGraph(), &cycleDetector{graph: graph} *)
+Definition world0 : world := W [] [] false.
+
+(* what the harness observes at one Check: Dependencies() of every target, len(DeclaredDependencies())
+   of every target, the returned errCycle.Cycle *)
+Definition observation := (graph * list nat * option (list nat))%type.
+
+Definition ran_matches (r : ran) (o : observation) : bool :=
+  match o with
+  | (snap, decls, obs) =>
+      list_eqb (list_eqb Nat.eqb) (resolved (r_world r)) snap
+      && list_eqb Nat.eqb (map (decl_count (declared (r_world r))) (seq 0 (length (resolved (r_world r))))) decls
+      && match r_out r, obs with
+         | Clean, None => true
+         | Found cyc, Some cyc' => list_eqb Nat.eqb cyc cyc'
+         | _, _ => false
+         end
+  end.
+
+Fixpoint all_match (rs : list ran) (os : list observation) : bool :=
+  match rs, os with
+  | [], [] => true
+  | r :: rs', o :: os' => ran_matches r o && all_match rs' os'
+  | _, _ => false
+  end.
+
 (* ---- correspondence cases ---- *)
 (* g: Dependencies() of every target; order: AllTargets(); observed: the returned errCycle.Cycle *)
 Inductive case :=
-| CCheck (g : graph) (order : list nat) (observed : option (list nat)).
+| CCheck (g : graph) (order : list nat) (observed : option (list nat))
+(* es: what was done to one graph and ONE detector, in order, starting from NewGraph(); observed: one
+   observation per ECheck of es *)
+| CSession (es : list event) (observed : list observation).
 
 Definition check (c : case) : bool :=
   match c with
@@ -95,4 +190,5 @@ Definition check (c : case) : bool :=
       | Found cyc, Some cyc' => list_eqb Nat.eqb cyc cyc'
       | _, _ => false
       end
+  | CSession es obs => all_match (run_session detect world0 es) obs
   end.
